@@ -223,7 +223,21 @@ func (r *rewriter) run() ([]byte, error) {
 			}
 			r.needSched = true
 			r.stats["send"]++
-			c.Replace(&ast.ExprStmt{X: call(schedSel("SendV"), n.Chan, n.Value)})
+			switch c.Parent().(type) {
+			case *ast.BlockStmt, *ast.CaseClause, *ast.CommClause, *ast.LabeledStmt:
+			default:
+				r.fail(n, "send statement in this position is not supported")
+				return false
+			}
+			if pureExpr(n.Chan) {
+				c.Replace(&ast.BlockStmt{List: []ast.Stmt{&ast.ExprStmt{X: call(schedSel("SendPt"), n.Chan)}, &ast.SendStmt{Chan: n.Chan, Value: n.Value}}})
+			} else {
+				cv := ast.NewIdent(r.name("c"))
+				c.Replace(&ast.BlockStmt{List: []ast.Stmt{
+					&ast.AssignStmt{Lhs: []ast.Expr{cv}, Tok: token.DEFINE, Rhs: []ast.Expr{n.Chan}},
+					&ast.ExprStmt{X: call(schedSel("SendPt"), cv)},
+					&ast.SendStmt{Chan: cv, Value: n.Value}}})
+			}
 		case *ast.UnaryExpr:
 			if n.Op != token.ARROW || r.skip[n] {
 				return true
